@@ -17,15 +17,20 @@ Theorem C13_size_is_length : forall d, wf d -> size d = Z.of_nat (length (denote
 Proof. exact size_denote. Qed.
 Print Assumptions C13_size_is_length.
 
-(* dispatch_data_create_concat = concatenation (no size hypothesis needed for the bytes) *)
-Theorem C13_concat : forall fresh a b, wf a -> wf b -> denote (concat fresh a b) = denote a ++ denote b.
+(* dispatch_data_create_concat = concatenation, invariant kept, sizes add up ... *)
+Theorem C13_concat : forall fresh a b d, wf a -> wf b -> concat fresh a b = Some d -> denote d = denote a ++ denote b.
 Proof. exact denote_concat. Qed.
 Print Assumptions C13_concat.
-(* ... and it keeps the invariant and adds the sizes when the total fits in size_t *)
-Theorem C13_concat_wf : forall fresh a b, wf a -> wf b -> fresh <> EMPTY_ID -> size a + size b < M64 ->
-  wf (concat fresh a b) /\ size (concat fresh a b) = size a + size b.
+Theorem C13_concat_wf : forall fresh a b d, wf a -> wf b -> fresh <> EMPTY_ID -> concat fresh a b = Some d ->
+  wf d /\ size d = size a + size b.
 Proof. exact wf_concat. Qed.
 Print Assumptions C13_concat_wf.
+(* ... and an object is returned exactly when the total fits in size_t (otherwise NULL, never a wrapped size) *)
+Theorem C13_concat_total : forall fresh a b, wf a -> wf b ->
+  (size a + size b < M64 -> exists d, concat fresh a b = Some d) /\
+  (size a <> 0 -> size b <> 0 -> M64 <= size a + size b -> concat fresh a b = None).
+Proof. exact concat_total. Qed.
+Print Assumptions C13_concat_total.
 
 (* dispatch_data_create_subrange = the clamped slice, for EVERY offset and length in size_t (firstn/skipn clamp):
    never faults, never crashes, result well-formed *)
@@ -70,23 +75,56 @@ Theorem C13_no_read_outside : forall fresh d off len loc f, wf d -> fresh <> EMP
 Proof. exact no_fault. Qed.
 Print Assumptions C13_no_read_outside.
 
+(* OWNERSHIP.  Full statement (NOT proved, kept here as the goal):
+     for every history of create / concat / subrange / map / copy_region / retain / release calls from st0 in which the
+     client only passes objects it holds a reference to and uses never-used ids for new objects (legal histories), with
+     held k = number of references the client holds on object k:
+       (1) NoDup (dlog st)                                                        -- a destructor never runs twice;
+       (2) In k (dlog st) -> held k = 0 /\ no live object has a record on leaf k   -- only after the object and everything
+                                                                                     derived from it have been released;
+       (3) (forall k, held k = 0) -> heap st = empty /\ dlog st is a permutation of the created leaves -- exactly once.
+   The missing piece is the reference-count invariant  e_rc = held + number of records of live composites on the leaf
+   (a counting argument over the heap; not done).  What IS proved: (1), together with "a destroyed buffer's object is gone",
+   for every history whose steps use never-destroyed ids for new objects and never return a destroyed object
+   (result_ok; for results that are new objects or the operand this follows from op_fresh_ok / liveness of the operand, for
+   results that are a record's leaf it is exactly what the missing invariant would give).  (2),(3) and result_ok are
+   covered by the correspondence runs only: destructor calls, their order and final counts are compared with the model and
+   judged against provenance kept by the checker on every generated balanced history. *)
+Theorem C13_destructor_at_most_once_partial : forall ops st',
+  history_ok st0 ops -> run st0 ops = Some st' ->
+  NoDup (dlog st') /\ forall k, In k (dlog st') -> heap st' k = None.
+Proof. intros ops st'. exact (destructor_at_most_once ops st0 st' dinv_st0). Qed.
+Print Assumptions C13_destructor_at_most_once_partial.
+
 Example C13_nonvacuous :
   let a := DLeaf (mkLeaf 1 [10;11;12;13;14]) in
   let b := DLeaf (mkLeaf 2 [20;21;22]) in
-  let c := concat 3 a b in
-  built c /\ wf c /\ denote c = [10;11;12;13;14;20;21;22] /\
+  let c := DComp 3 false 8 [mkRec (mkLeaf 1 [10;11;12;13;14]) 0 5; mkRec (mkLeaf 2 [20;21;22]) 0 3] in
+  concat 3 a b = Some c /\ built c /\ wf c /\ denote c = [10;11;12;13;14;20;21;22] /\
   (exists s, subrange 4 c 3 18446744073709551615 = Some s /\ built s /\ denote s = [13;14;20;21;22] /\ size s = 5) /\
   copy_region 5 c 6 = Some (b, 5) /\
-  regions c = Some [mkRegion 1 0 [10;11;12;13;14]; mkRegion 2 5 [20;21;22]].
+  regions c = Some [mkRegion 1 0 [10;11;12;13;14]; mkRegion 2 5 [20;21;22]] /\
+  (* a history: the buffers outlive their handles while the concatenation lives, then each destructor runs once *)
+  (exists st1 st2, run st0 [OCreate 1 [10;11;12;13;14]; OCreate 2 [20;21;22]; OConcat 3 1 2; ORelease 1; ORelease 2] = Some st1 /\
+     dlog st1 = [] /\ run st1 [ORelease 3] = Some st2 /\ dlog st2 = [1; 2] /\
+     heap st2 1 = None /\ heap st2 2 = None /\ heap st2 3 = None).
 Proof.
   cbv zeta.
   assert (Ha : built (DLeaf (mkLeaf 1 [10;11;12;13;14]))) by (apply b_leaf; [discriminate|discriminate|vm_compute; reflexivity]).
   assert (Hb : built (DLeaf (mkLeaf 2 [20;21;22]))) by (apply b_leaf; [discriminate|discriminate|vm_compute; reflexivity]).
-  assert (Hc : built (concat 3 (DLeaf (mkLeaf 1 [10;11;12;13;14])) (DLeaf (mkLeaf 2 [20;21;22]))))
-    by (apply b_concat; [assumption|assumption|discriminate|vm_compute; reflexivity]).
-  split; [assumption|]. split; [apply built_wf; assumption|]. split; [vm_compute; reflexivity|].
-  split; [|split; vm_compute; reflexivity].
+  assert (Hc : built (DComp 3 false 8 [mkRec (mkLeaf 1 [10;11;12;13;14]) 0 5; mkRec (mkLeaf 2 [20;21;22]) 0 3]))
+    by (eapply b_concat with (f := 3); [exact Ha|exact Hb|discriminate|vm_compute; reflexivity]).
+  split; [vm_compute; reflexivity|]. split; [assumption|]. split; [apply built_wf; assumption|]. split; [vm_compute; reflexivity|].
+  split; [|split; [vm_compute; reflexivity|split; [vm_compute; reflexivity|]]].
+  2: { eexists. eexists. split; [vm_compute; reflexivity|]. split; [reflexivity|]. split; [vm_compute; reflexivity|].
+       repeat split; reflexivity. }
   eexists. split; [vm_compute; reflexivity|]. split; [|split; vm_compute; reflexivity].
   eapply b_subrange with (f := 4) (off := 3) (len := 18446744073709551615); [exact Hc|discriminate| | |vm_compute; reflexivity];
     unfold M64; split; (vm_compute; congruence) || reflexivity.
 Qed.
+
+(* the hypothesis of C13_destructor_at_most_once_partial is satisfiable on a history that shares and destroys buffers *)
+Example C13_history_nonvacuous :
+  history_ok st0 [OCreate 1 [10;11;12;13;14]; OCreate 2 [20;21;22]; OConcat 3 1 2; OSubrange 4 3 5 3;
+                  ORelease 1; ORelease 2; ORelease 3; ORelease 4].
+Proof. cbv. intuition (try discriminate; try congruence). Qed.
